@@ -8,7 +8,7 @@ import itertools
 
 from . import bits as B
 from . import solver
-from .lin import (FALSE, INT_BITS, INT_MAX, INT_MIN, SIGNED, TRUE, Lin, dnf, eq, f_and, f_not, f_or, flit, ge, gt, le, lin,
+from .lin import (FALSE, INT_BITS, INT_MAX, INT_MIN, SIGNED, TRUE, Lin, atoms_deep, dnf, eq, f_and, f_not, f_or, flit, ge, gt, le, lin,
                   lt, ne, neg_lit, show_formula, show_pc)
 from .values import *
 
@@ -295,6 +295,23 @@ class Interp:
         if isinstance(base, tuple) and base[0] == "lit":
             if off.is_const() and 0 <= off.c < len(base[1]):
                 return IntV(base[1][off.c], "u8")
+        if not off.is_const():
+            # one name per memory cell: if the path condition already speaks about this buffer at an offset it entails to be
+            # equal (`len - 1` vs `4 * (length field + 1) - 1` after the length check), read that cell
+            okey = off.key()
+            seen = set()
+            for l in st.pc:
+                if l[0] not in ("le", "eq", "ne"):
+                    continue
+                for a in atoms_deep(l[1]):
+                    if a[0] == "byte" and a[1] == base and a[2] != okey and a[2] not in seen:
+                        seen.add(a[2])
+            for ck in seen:
+                C = Lin.from_key(ck)
+                if C.is_const() or not any(x[0] == "len" for x in atoms_deep(off - C)):
+                    continue
+                if solver.entails_lit(st.pc, eq(off, C)):
+                    return IntV(Lin.atom(("byte", base, ck)), "u8")
         return IntV(Lin.atom(("byte", base, off.key())), "u8")
 
     def _read_from_write(self, st, w, base, off):
